@@ -20,6 +20,8 @@
 #include <string.h>
 
 int libwifi_parse_data(struct libwifi_data *data, struct libwifi_frame *frame) {
+    memset(data, 0, sizeof(struct libwifi_data));
+
     if (frame->frame_control.type != TYPE_DATA) {
         return -EINVAL;
     }
@@ -34,11 +36,14 @@ int libwifi_parse_data(struct libwifi_data *data, struct libwifi_frame *frame) {
 
     data->body_len = frame->len - frame->header_len;
 
-    data->body = malloc(data->body_len);
-    if (data->body == NULL) {
-        return -ENOMEM;
+    // A frame without a body has nothing to copy (and frame->body is NULL)
+    if (data->body_len > 0) {
+        data->body = malloc(data->body_len);
+        if (data->body == NULL) {
+            return -ENOMEM;
+        }
+        memcpy(data->body, frame->body, data->body_len);
     }
-    memcpy(data->body, frame->body, data->body_len);
 
     return 0;
 }
